@@ -37,6 +37,10 @@ func checkC02(c *Ctx) {
 	ruleOneValueOneField(c, "C02.j")
 	c.rule("C02.k", "numeric option fields are encoded at their full width (no narrowing conversion)", 1)
 	ruleNoNarrowingOnEncode(c, "C02.k", "imapclient")
+	c.rule("C02.l", "writer and reader literal thresholds agree (an argument sent as a literal of any size the client may choose is accepted)", 8)
+	ruleThresholdAgreement(c, "C02.l")
+	c.rule("C02.m", "mailbox-name transformer chunking: ErrShortSrc on a split unit, space check before every write, nSrc after the check", 6)
+	ruleUTF7Chunking(c, "C02.m", "C02.m", "C02.m")
 	ruleNoSwallowedError(c, "C02.d", "imapserver", "internal")
 }
 
